@@ -20,6 +20,14 @@
 (*                  class, own and foreign-class methods, context reset.   *)
 (*  Mode "ambig":   one class, <= MaxRecs entries sharing one obfuscated     *)
 (*                  name with originals p/q in every order.                *)
+(*  Mode "ranges":  one class, <= MaxRecs entries sharing one obfuscated    *)
+(*                  name, ranges from an alphabet in which every interval  *)
+(*                  relation occurs (before, meets, overlaps, contains,    *)
+(*                  starts, finishes, equal, and their inverses, plus no   *)
+(*                  range), originals p/q in every order: any search       *)
+(*                  structure over the entry list (sorting, partition      *)
+(*                  points, comparison with the previous entry only) must  *)
+(*                  agree with the plain scan.                             *)
 (*  Mode "names":   class blocks with adversarially close obfuscated names *)
 (*                  (prefixes, '$' / '.' variants, non-ASCII, duplicates). *)
 (*  Mode "blocks":  2..3 class blocks (names may repeat) of <= 2 methods   *)
@@ -133,6 +141,12 @@ ClassA0 == ClassAst(B("Top$In$$Lambda0"), B("a"))
 \* (the original class qualifier is NOT part of the comparison: p and x.Y.p agree)
 AmbigAlpha == {EntryAst(r, <<>>, oc, nm, B("m")) : r \in {<<>>, <<D(1), D(2)>>}, nm \in {B("p"), B("q")}, oc \in {<<>>, <<B("x.Y")>>}}
 
+\* ---- interval alphabet (mode "ranges") ------------------------------------------------------
+RangesAlpha == {EntryAst(r, <<>>, <<>>, nm, B("m")) :
+                  r \in {<<>>, <<D(1), D(1)>>, <<D(1), D(2)>>, <<D(1), D(4)>>, <<D(2), D(2)>>, <<D(2), D(3)>>,
+                         <<D(2), D(4)>>, <<D(3), D(4)>>},
+                  nm \in {B("p"), B("q")}}
+
 \* ---- adversarial class names (mode "names") -------------------------------------
 \* up to MaxRecs class blocks whose obfuscated names are close in byte order; each block has one
 \* method whose original name tells which block answered
@@ -158,6 +172,7 @@ Init ==
   \/ Mode = "blocks" /\ phase = "b0" /\ lines = <<>>
   \/ Mode = "files" /\ phase = "files" /\ lines \in {<<ClassA>>, <<ClassA0>>}
   \/ Mode = "ambig" /\ phase = "ambig" /\ lines = <<ClassA>>
+  \/ Mode = "ranges" /\ phase = "ranges" /\ lines = <<ClassA>>
   \/ Mode = "names" /\ phase = "names" /\ lines = <<>>
 
 NextBlockPhase(p) == IF p = "b0" THEN "b1" ELSE IF p = "b1" THEN "b2" ELSE "b3"
@@ -185,6 +200,9 @@ Next ==
   \/ /\ phase = "ambig" /\ Len(lines) < MaxRecs + 1
      /\ \E r \in AmbigAlpha : lines' = Append(lines, r)
      /\ UNCHANGED phase
+  \/ /\ phase = "ranges" /\ Len(lines) < MaxRecs + 1
+     /\ \E r \in RangesAlpha : lines' = Append(lines, r)
+     /\ UNCHANGED phase
   \/ /\ phase = "names" /\ Len(lines) < 2 * MaxRecs
      /\ \E n \in NameAlpha : lines' = lines \o NameBlock(n, Len(lines) \div 2)
      /\ UNCHANGED phase
@@ -192,7 +210,7 @@ Spec == Init /\ [][Next]_vars
 
 Recs(ls) == [k \in 1..Len(ls) |-> Denotes(ls[k])]
 
-Queries == SetToSeq(IF Mode \in {"entries", "files", "ambig"} THEN QueriesEntries
+Queries == SetToSeq(IF Mode \in {"entries", "files", "ambig", "ranges"} THEN QueriesEntries
                     ELSE IF Mode = "names" THEN QueriesNames ELSE QueriesRecords)
 
 Full == IF Mode = "entries" THEN lines \o OtherBlock ELSE lines
